@@ -2,6 +2,7 @@ import KoordVerif.Proofs.C02Iter
 import KoordVerif.Proofs.C02Perm
 import KoordVerif.Proofs.C02Scale
 import KoordVerif.Proofs.C02ExtGlue
+import KoordVerif.Proofs.C02ExtNodes
 /-
 C02 — property theorems (DESIGN.md §4 C02).  `redistributeN total ns` is the model of
 `quotaTree.redistribution(total)` over the sibling list `ns`: it returns every sibling with
@@ -751,5 +752,83 @@ example : NamesNodup [⟨1, 3, 700, 100, 0, true⟩, ⟨2, 1, 350, 200, 0, false
 example : ((SM.init.update 1 50 true).update 2 50 true |>.update 3 20 false).scaled exactShare 100 1 = some 40 := by decide
 
 example : (⟨1, 0, [], []⟩ : Calc).Fresh := by intro name v rt h; simp [cacheGet] at h
+
+/-! ### 9. the cluster total is the from-scratch sum over the CURRENT node set, after ANY history of node events -/
+
+/-- main statement (all histories an informer can deliver): in every resource name, the manager's cluster total
+    reads the sum of that name over the nodes that currently exist — a name one node no longer lists counts 0 for
+    that node. -/
+theorem total_eq_sum_of_current_nodes (evs : List NEv) (h : coherentHist [] evs = true) (d : Nat) :
+    rlGet (NS.run rlSub {} evs).total d = stSum (evs.foldl stStep []) d :=
+  (ninv_run rlSub fullSub_rlSub evs {} [] ninv_init h).total d
+
+/-- … and so does the total the ROOT calculator divides (what RefreshRuntime of a top-level quota sees). -/
+theorem root_total_eq_sum_of_current_nodes (evs : List NEv) (h : coherentHist [] evs = true) (d : Nat) :
+    rlGet (NS.run rlSub {} evs).pushed d = stSum (evs.foldl stStep []) d := by
+  have hi := ninv_run rlSub fullSub_rlSub evs {} [] ninv_init h
+  rw [hi.pushed d, hi.total d]
+
+/-- the manager's set of known nodes is the current node set. -/
+theorem known_nodes_eq_current_nodes (evs : List NEv) (h : coherentHist [] evs = true) :
+    (NS.run rlSub {} evs).known = (evs.foldl stStep []).map Prod.fst :=
+  (ninv_run rlSub fullSub_rlSub evs {} [] ninv_init h).known
+
+/-- the same from any state that is already right, and for ANY way of building the update delta that reads
+    new − old in every resource name (a refactoring of the subtraction keeps the theorem). -/
+theorem total_eq_sum_any_full_subtract (sub : RL → RL → RL) (hsub : FullSub sub) (s : NS) (st : Store)
+    (hi : NInv s st) (evs : List NEv) (h : coherentHist st evs = true) (d : Nat) :
+    rlGet (NS.run sub s evs).total d = stSum (evs.foldl stStep st) d ∧
+    rlGet (NS.run sub s evs).pushed d = stSum (evs.foldl stStep st) d := by
+  have hi' := ninv_run sub hsub evs s st hi h
+  exact ⟨hi'.total d, by rw [hi'.pushed d, hi'.total d]⟩
+
+/-- a resource name that VANISHES from a node's allocatable is subtracted in full. -/
+theorem vanished_key_is_subtracted (new old : RL) (d : Nat) (h : rlFind new d = none) :
+    rlGet (rlSub new old) d = - rlGet old d := by
+  rw [rlGet_sub]; simp [rlGet, h]
+
+/-- a delta built from the NEW allocatable's keys only is NOT enough: two nodes with 8 GPUs each, node 1 loses the
+    gpu key — the total keeps 16 although the cluster has 8. -/
+theorem new_keys_only_delta_counterexample :
+    ¬ (∀ evs : List NEv, coherentHist [] evs = true → ∀ d,
+        rlGet (NS.run rlSubNewKeysOnly {} evs).total d = stSum (evs.foldl stStep []) d) := by
+  intro h
+  have := h [.add 1 [(0, 4000), (2, 8)], .add 2 [(0, 4000), (2, 8)], .update 1 [(0, 4000), (2, 8)] [(0, 4000)]]
+    (by decide) 2
+  revert this
+  decide
+
+/-- … it differs from the full subtraction only there: as long as every name of the old list is still named by
+    the new one (value changes, a drop to an explicit 0, new names) both deltas read the same. -/
+theorem new_keys_only_right_while_keys_stay (new old : RL) (hk : ∀ d, rlHas old d = true → rlHas new d = true)
+    (d : Nat) : rlGet (rlSubNewKeysOnly new old) d = rlGet (rlSub new old) d := by
+  rw [rlGet_subNewKeysOnly, rlGet_sub]
+  cases hn : rlHas new d
+  · have ho : rlHas old d = false := by
+      cases ho : rlHas old d
+      · rfl
+      · rw [hk d ho] at hn; cases hn
+    simp only [rlHas] at hn ho
+    have h1 : rlFind new d = none := by cases h : rlFind new d <;> simp_all
+    have h2 : rlFind old d = none := by cases h : rlFind old d <;> simp_all
+    simp [rlGet, h1, h2]
+  · simp
+
+/-- end to end: after any history of node events, top-level siblings whose minimums fit into what the CURRENT
+    nodes offer together never get more than that. -/
+theorem siblings_le_sum_of_current_nodes (evs : List NEv) (h : coherentHist [] evs = true) (d : Nat)
+    (ns : List Node) (hw : WeightsOK ns) (hfit : effMinSum ns ≤ stSum (evs.foldl stStep []) d) :
+    runtimeSum (redistributeN (rlGet (NS.run rlSub {} evs).pushed d) ns).1 ≤ stSum (evs.foldl stStep []) d := by
+  rw [root_total_eq_sum_of_current_nodes evs h d]
+  exact sum_le_total _ ns hw hfit
+
+/-- the hypothesis is satisfiable on a history with a vanishing name, a replayed add, an equal update, an update of
+    an unknown node and a delete; the model ends with the sum over the two nodes left. -/
+example :
+    let evs : List NEv := [.add 1 [(0, 4000), (2, 8)], .add 2 [(0, 4000), (2, 8)], .add 1 [(0, 4000), (2, 8)],
+      .update 1 [(0, 4000), (2, 8)] [(0, 4000)], .update 2 [(0, 4000), (2, 8)] [(2, 8), (0, 4000)],
+      .update 3 [] [(2, 0)], .delete 9 [(0, 1)], .delete 3 [(2, 0)]]
+    coherentHist [] evs = true ∧ rlGet (NS.run rlSub {} evs).total 2 = 8 ∧ rlGet (NS.run rlSub {} evs).total 0 = 8000 ∧
+      (NS.run rlSub {} evs).known = [2, 1] := by decide
 
 end KoordVerif.C02
